@@ -9,7 +9,8 @@
 (* The corpus and the alphabet are printed once so that the harness knows nothing by itself.    *)
 EXTENDS Grammar, TLC, Json
 
-CONSTANTS Mode, MaxLen, NTexts
+CONSTANTS Mode, MaxLen, NTexts,
+          NestedDepths    \* (a set) repetition counts of the nesting forms (small while C16-e stands)
 
 \* ---- strings ------------------------------------------------------------------------------
 VARIABLES s, done
@@ -122,7 +123,7 @@ AllChains ==
   /\ done' = TRUE /\ UNCHANGED s
 
 \* Mode = "long" (-simulate): a random token string of 6..30 tokens, or a repetition pre^n mid post^n
-\* (nested forms up to MaxNesting, flat forms up to 20,000 repetitions)
+\* (nested forms NestedDepths deep, flat forms up to 20,000 repetitions)
 RepForms == << [pre |-> <<10>>, mid |-> <<1>>, post |-> <<11>>, nested |-> TRUE],           \* ((( a )))
                [pre |-> <<12, 10>>, mid |-> <<1>>, post |-> <<11>>, nested |-> TRUE],       \* +(+( a ))
                [pre |-> <<2, 10>>, mid |-> <<1>>, post |-> <<11>>, nested |-> TRUE],        \* a:(a:( a ))
@@ -139,6 +140,8 @@ RepForms == << [pre |-> <<10>>, mid |-> <<1>>, post |-> <<11>>, nested |-> TRUE]
                [pre |-> <<5>>, mid |-> <<>>, post |-> <<>>, nested |-> FALSE],              \* backslashes
                [pre |-> <<26>>, mid |-> <<25>>, post |-> <<26>>, nested |-> FALSE],         \* multi-byte run
                [pre |-> <<1>>, mid |-> <<>>, post |-> <<>>, nested |-> FALSE] >>            \* one very long word
+RECURSIVE NthDepth(_, _)
+NthDepth(S, k) == LET m == CHOOSE x \in S : \A y \in S : x <= y IN IF k = 1 THEN m ELSE NthDepth(S \ {m}, k - 1)
 NewLong ==
   /\ Mode = "long" /\ ~done
   /\ \E r \in {<<Pick(Rnd), Pick(Rnd), Pick(Rnd), Pick(Rnd), Pick(Rnd), Pick(Rnd), Pick(Rnd), Pick(Rnd), Pick(Rnd), Pick(Rnd),
@@ -146,7 +149,7 @@ NewLong ==
                  Pick(Rnd), Pick(Rnd), Pick(Rnd), Pick(Rnd), Pick(Rnd), Pick(Rnd), Pick(Rnd), Pick(Rnd), Pick(Rnd), Pick(Rnd), Pick(Rnd)>>} :
        IF r[1] % 4 = 0
        THEN LET f == RepForms[1 + (r[2] % Len(RepForms))]
-                n == IF f.nested THEN (<<10, 100, MaxNesting>>)[1 + (r[3] % 3)] ELSE (<<10, 1000, 20000>>)[1 + (r[3] % 3)]
+                n == IF f.nested THEN NthDepth(NestedDepths, 1 + (r[3] % Cardinality(NestedDepths))) ELSE (<<10, 1000, 20000>>)[1 + (r[3] % 3)]
             IN  PrintT(<<"REP", ToJson([pre |-> f.pre, n |-> n, mid |-> f.mid, post |-> f.post])>>)
        ELSE LET ts == [x \in 1..(6 + (r[2] % 25)) |-> 1 + ((R(r, x + 2) + (x * R(r, x + 13))) % Len(Alphabet))]
             IN  IF Steered(ts) THEN TRUE ELSE PrintT(<<"S", ts>>)
